@@ -26,3 +26,9 @@ package crypto
 //@   props C15
 //@   ensures result1 == nil ==> len(result0) > len(originData) && len(result0) % 16 == 0 && len(result0) <= len(originData) + 16
 //@   nopanic
+
+// ECDSA signing with the node key is deterministic (RFC 6979 nonces in the secp256k1 library): a function of digest and key.  Assumed.
+//@ spec func sigOf(h [0]byte, k *ecdsa.PrivateKey) [0]byte
+//@ func Sign   trusted
+//@   modifies nothing
+//@   ensures result1 == nil ==> !isNil(result0) && fresh(result0) && len(result0) == 65 && content(result0) == sigOf(content(hash), prv)
